@@ -121,8 +121,15 @@ def lit(v):
     return ('lit', v)
 
 class Interp:
-    def __init__(self, facts, body, summaries=None, unroll=1, inline=None, field_hook=None, for_once=False, result_combinators=True, combinators=False, generic_loops=False):
+    def __init__(self, facts, body, summaries=None, unroll=1, inline=None, field_hook=None, for_once=False, result_combinators=True, combinators=False, generic_loops=False,
+                 domain=None, local_try=False):
         self.field_hook = field_hook
+        # an optional value domain (rules/strdom.py): decides equality / ordering / indexing / iteration of the values it knows
+        # (symbolic strings, finite sequences); every hook answers None for "not mine", and the interpreter goes on as without it
+        self.domain = domain
+        # a `?` inside a helper that the fact loader expanded in place leaves the *helper* (the expanded block takes the failure
+        # as its value), not the function the helper was expanded into
+        self.local_try = local_try
         self.generic_loops = generic_loops   # evaluate `loop`/`while` once from every state an earlier iteration can leave behind
         self.combinators = combinators    # model Option/Result::{unwrap_or*, ok_or*, map_or*} by cases
         self.result_combinators = result_combinators   # model Result::{map_err, ok, err} by cases instead of as opaque calls
@@ -179,7 +186,8 @@ class Interp:
         if rec is None or getattr(self, '_depth', 0) > 6:
             return None
         B = hirq.Body(self.facts, rec)
-        sub = Interp(self.facts, B, self.summaries, self.unroll, self.inline, self.field_hook, self.for_once, self.result_combinators, self.combinators, self.generic_loops)
+        sub = Interp(self.facts, B, self.summaries, self.unroll, self.inline, self.field_hook, self.for_once, self.result_combinators, self.combinators, self.generic_loops,
+                     self.domain, self.local_try)
         sub._depth = getattr(self, '_depth', 0) + 1
         env = {}
         states = [St(env, st.heap, st.ev, st.pc, st.ctr)]
@@ -369,6 +377,10 @@ class Interp:
                     if r is not None:
                         outs.extend(r); done = True
                         break
+            if not done and self.domain is not None:
+                dv = self.domain.binop(op, a, b)
+                if dv is not None:
+                    outs.append(Out('val', ('lit', dv), s)); done = True
             if not done:
                 r = bin_term(op, a, b)
                 if op in ('Add', 'Sub', 'Mul', 'Shl') and a[0] == 'lit' and b[0] == 'lit' and r[0] == 'lit' and isinstance(r[1], int) and not isinstance(r[1], bool):
@@ -434,12 +446,7 @@ class Interp:
                 else:
                     outs.append(Out('div', UNIT, s.event(('panic', 'index out of range', (a, b), e))))
             else:
-                # a rule may supply the semantics of indexing a value it models (pseudo-callee '#index')
-                r = None
-                for sm in self.summaries:
-                    r = sm(self, '#index', [a, b], e, s)
-                    if r is not None:
-                        break
+                r = self.domain.index(self, a, b, e, s) if self.domain is not None else None
                 if r is not None:
                     outs.extend(r)
                 else:
@@ -643,6 +650,9 @@ class Interp:
                 outs.append(o); continue
             itv = o.val
             lits = self.literal_elems(itv) if not self.for_once else None
+            if lits is None and self.domain is not None and not self.for_once:
+                # a sequence whose elements the domain knows one by one (the pieces of a split symbolic string): run exactly over them
+                lits = self.domain.iter_elems(self, itv, o.st, e)
             if lits is not None:
                 # a loop over a literal sequence runs exactly over its elements
                 states = [o.st]
@@ -841,20 +851,35 @@ class Interp:
 
     def ev_Try(self, e, st):
         outs = []
-        # `e?` inside a helper that was expanded in place (facts.inlined) propagates the failure to the end of the *helper*: the
-        # expansion is a labelled block ('ret_target') and the failure is that block's value - it does not leave the caller
-        tgt = e.get('ret_target')
-        def leave(v, s):
-            s = s.event(('try-err', v, e))
-            return Out('brk', ('tryerr', v), s, tgt) if tgt is not None else Out('ret', ('tryerr', v), s)
+        tgt = e.get('ret_target') if self.local_try else None
         for o in self.ev(e['e'], st):
             if o.kind != 'val':
                 outs.append(o); continue
             v = o.val
+            if tgt is not None:
+                # (local_try) the `?` of an expanded helper: its failure is the value of the expanded block
+                if v[0] == 'ctor' and v[1] in ('Ok', 'Some'):
+                    outs.append(Out('val', v[2][0] if v[2] else UNIT, o.st))
+                elif (v[0] == 'ctor' and v[1] in ('Err', 'None')) or v[0] == 'tryerr':
+                    outs.append(Out('brk', v if v[0] == 'tryerr' else ('tryerr', v), o.st.event(('try-err', v, e)), tgt))
+                else:
+                    good = 'Some' if (e['e'].get('ty') or '').startswith('core::option::Option') else 'Ok'
+                    atom = ('is', v, good)
+                    k = o.st.known(atom)
+                    if k is not False:
+                        outs.append(Out('val', ('variant', v, good, 0), o.st if k else o.st.assume(atom, True)))
+                    if k is not True:
+                        s = o.st if k is False else o.st.assume(atom, False)
+                        outs.append(Out('brk', ('tryerr', v), s.event(('try-err', v, e)), tgt))
+                continue
+            if self.local_try and v[0] == 'tryerr':
+                # the failure an expanded helper handed back, propagated once more: still the same failure
+                outs.append(Out('ret', v, o.st.event(('try-err', v[1], e))))
+                continue
             if v[0] == 'ctor' and v[1] in ('Ok', 'Some'):
                 outs.append(Out('val', v[2][0] if v[2] else UNIT, o.st))
             elif v[0] == 'ctor' and v[1] in ('Err', 'None'):
-                outs.append(leave(v, o.st))
+                outs.append(Out('ret', ('tryerr', v), o.st.event(('try-err', v, e))))
             else:
                 good = 'Some' if (e['e'].get('ty') or '').startswith('core::option::Option') else 'Ok'
                 atom = ('is', v, good)
@@ -863,7 +888,7 @@ class Interp:
                     outs.append(Out('val', ('variant', v, good, 0), o.st if k else o.st.assume(atom, True)))
                 if k is not True:
                     s = o.st if k is False else o.st.assume(atom, False)
-                    outs.append(leave(v, s))
+                    outs.append(Out('ret', ('tryerr', v), s.event(('try-err', v, e))))
         return outs
 
     def ev_Await(self, e, st):
@@ -1275,6 +1300,10 @@ class Interp:
                     return [('no', st)]
                 if kt == 'maybe':
                     st = st.assume(('is', v, var), True)
+                elif kt == 'yes' and not any(a == ('is', v, var) and t for a, t in st.pc) and var not in COMPLEMENT:
+                    # known by exclusion of every sibling variant: say so in the path condition, so that a rule which asks "is this
+                    # the X path?" gets the same answer whether the code tested for X or ruled out everything else first
+                    st = st.assume(('is', v, var), True)
             if k == 'PTupleStruct':
                 if 'Struct' in (p.get('defkind') or '') and not is_var:
                     # destructuring a tuple struct is the same as reading its numbered fields
@@ -1296,7 +1325,9 @@ class Interp:
                     pv = ('lit', -pv[1])
                 if v[0] == 'lit':
                     return [('yes' if v == pv else 'no', st)]
-                kn = st.known(('bin', 'Eq', v, pv))
+                kn = self.domain.eq(v, pv) if self.domain is not None else None
+                if kn is None:
+                    kn = st.known(('bin', 'Eq', v, pv))
                 if kn is not None:
                     return [('yes' if kn else 'no', st)]
                 return [('maybe', st.assume(('bin', 'Eq', v, pv), True))]
@@ -1305,6 +1336,8 @@ class Interp:
                 kt = st.variant_test(v, var, self.siblings(pe))
                 if kt == 'maybe':
                     return [('maybe', st.assume(('is', v, var), True))]
+                if kt == 'yes' and not any(a == ('is', v, var) and t for a, t in st.pc) and var not in COMPLEMENT:
+                    st = st.assume(('is', v, var), True)      # known by exclusion: made explicit (see above)
                 return [(kt, st)]
             if pe.get('defkind', '').startswith('Const') or pe.get('defkind', '').startswith('AssocConst'):
                 cv = hirq.const_eval(self.facts, {'k': 'Path', 'res': 'def', 'defkind': pe.get('defkind'), 'def': pe.get('def')})
@@ -1313,7 +1346,9 @@ class Interp:
                 if cv is not None:
                     # a named constant in pattern position is the literal it evaluates to
                     pv = lit(cv)
-                    kn = st.known(('bin', 'Eq', v, pv))
+                    kn = self.domain.eq(v, pv) if self.domain is not None else None
+                    if kn is None:
+                        kn = st.known(('bin', 'Eq', v, pv))
                     if kn is not None:
                         return [('yes' if kn else 'no', st)]
                     return [('maybe', st.assume(('bin', 'Eq', v, pv), True))]
@@ -1427,6 +1462,8 @@ def bin_term(op, a, b):
                 return ('lit', r())
         except Exception:
             pass
+    if op in ('Eq', 'Ne') and a[0] == 'lit' and b[0] == 'lit' and type(a[1]) is type(b[1]) and isinstance(a[1], (bytes, str)):
+        return ('lit', (a[1] == b[1]) == (op == 'Eq'))     # two literals of the same kind (text / bytes) are equal iff they are the same literal
     if op in ('BitOr', 'BitAnd', 'Or', 'And'):
         for x, y in ((a, b), (b, a)):
             if x[0] == 'lit' and isinstance(x[1], bool):
@@ -1650,6 +1687,27 @@ def builtin_summary(I, cal, args, node, st):
                 else:
                     outs.append(o)
         return outs
+    if I.combinators and is_opt and name == 'filter' and len(args) == 2 and args[1][0] in ('closure', 'fn'):
+        # Option::filter(p): Some(x) exactly when the option is Some(x) and p(&x) holds, None otherwise
+        v = args[0]
+        if v[0] == 'ctor' and v[1] == 'None':
+            return [Out('val', v, st)]
+        outs, branches = [], []
+        if v[0] == 'ctor' and v[1] == 'Some':
+            branches.append((v[2][0], st))
+        else:
+            kt = st.variant_test(v, 'Some', ['Some', 'None'])
+            if kt != 'no':
+                branches.append((('variant', v, 'Some', 0), st if kt == 'yes' else st.assume(('is', v, 'Some'), True)))
+            if kt != 'yes':
+                outs.append(Out('val', ('ctor', 'None', ()), st if kt == 'no' else st.assume(('is', v, 'Some'), False)))
+        for inner, s in branches:
+            for o in I.apply(args[1], [inner], node, s):
+                if o.kind != 'val':
+                    outs.append(o); continue
+                for truth, s3 in I.decide(o.val, o.st):
+                    outs.append(Out('val', ('ctor', 'Some', (inner,)) if truth else ('ctor', 'None', ()), s3))
+        return outs
     if I.combinators and (is_opt or is_res) and name in ('unwrap_or', 'unwrap_or_else', 'unwrap_or_default', 'ok_or', 'ok_or_else', 'map_or', 'map_or_else') and args:
         good, bad = ('Some', 'None') if is_opt else ('Ok', 'Err')
         v = args[0]
@@ -1673,7 +1731,7 @@ def builtin_summary(I, cal, args, node, st):
                     outs.extend(I.apply(args[1], [] if is_opt else [inner], node, s))
                 else:
                     ty = node.get('ty') or ''
-                    outs.append(Out('val', ('vec', ()) if ty.startswith('alloc::vec::Vec<') else (('lit', '') if ty in ('alloc::string::String', '&str') else ('default', ty)), s))
+                    outs.append(Out('val', ('vec', ()) if ty.startswith('alloc::vec::Vec<') else (('lit', '') if ty in ('alloc::string::String', '&str') or (ty.startswith('alloc::borrow::Cow<') and ty.endswith(' str>')) else ('default', ty)), s))
             elif name in ('ok_or', 'ok_or_else'):
                 if var == good:
                     outs.append(Out('val', ('ctor', 'Ok', (inner,)), s))
